@@ -14,14 +14,19 @@ From stdpp Require Import list.
 Inductive binop := Mul | Div | Add | Sub | Pow | IntDiv | Mod | ShiftL | ShiftR | BitAnd | BitOr | BitXor.
 
 (* ast::Expression: Number / Variable { name, access } / InfixOp { lhe, infix_op, rhe };
-   an access is an array index expression *)
+   an element of an access list is ast::Access: ArrayAccess(index expression) - any
+   expression - or ComponentAccess(name) - [EField name], which occurs in access lists
+   only (fourth audit: `c8.y[1] -= e` parses and lifts; the access list used to hold
+   index expressions only) *)
 Inductive ex (N : Type) :=
 | ENum (n : nat)
 | EVar (x : N) (access : list (ex N))
-| EInfix (op : binop) (lhe rhe : ex N).
+| EInfix (op : binop) (lhe rhe : ex N)
+| EField (f : N).
 Arguments ENum {N} n.
 Arguments EVar {N} x access.
 Arguments EInfix {N} op lhe rhe.
+Arguments EField {N} f.
 
 (* what ParseSubstitution reads (surface forms) and what it builds (only
    CAssign = ast::Statement::Substitution { var, access, op: AssignVar, rhe }) *)
